@@ -145,7 +145,7 @@ theorem bin_int_nest (ls : List Layer) : ∀ (n : Nat), ls.length ≤ n → ∀ 
 
 theorem cmpHeads_wrap (R : RepOps) (layer : Layer) (op : CmpOp) (a b : Ty) (l r : Int) :
     cmpHeads R op (layer.wrap a, l) (layer.wrap b, r) = R.cmp op (a, l) (b, r) := by
-  cases layer <;> simp [cmpHeads, Layer.wrap]
+  cases layer <;> simp [cmpHeads, Layer.wrap, Scaled.cmp]
 
 theorem ops_cmp_int (n : Nat) (op : CmpOp) (L R : IntTy) (l r : Int) :
     (ops n).cmp op (.int L, l) (.int R, r) = .ok (cCmp op (L, l) (R, r)) := by
@@ -228,7 +228,12 @@ open Cnl Cnl.Layered
 
 theorem castWith_wrap (R : RepOps) (layer : Layer) (a b : Ty) (l : Int) :
     castWith R (layer.wrap a) (layer.wrap b, l) = (R.cast a (b, l)).map (fun v => (layer.wrap v.1, v.2)) := by
-  cases layer <;> simp [castWith, Layer.wrap]
+  cases layer with
+  | sc radix =>
+    simp only [castWith, Layer.wrap, Scaled.convert, ite_true]
+    cases R.cast a (b, l) <;> rfl
+  | ov => simp [castWith, Layer.wrap]
+  | rd => simp [castWith, Layer.wrap]
 
 theorem ops_cast_int (n : Nat) (D S : IntTy) (l : Int) :
     (ops n).cast (.int D) (.int S, l) = .ok (.int D, D.wrap l) := by
